@@ -133,6 +133,10 @@ func utilsMinMax(isMin bool) modelFn {
 var models = map[string]modelFn{
 	"github.com/projecteru2/core/utils.Min": utilsMinMax(true),
 	"github.com/projecteru2/core/utils.Max": utilsMinMax(false),
+	"github.com/projecteru2/core/utils.Round": func(x *Exec, st *State, fr *Frame, in ssa.Instruction, fn *ssa.Function, args []Val, k callCont) {
+		x.note("utils.Round is the identity on the real-number reading of float64 (CPU amounts are decimal fractions that float rounding merely normalises)")
+		k(st, args[0])
+	},
 	"google.golang.org/grpc/metadata.FromIncomingContext": mdFromIncoming,
 	"strings.ToLower": strToLower,
 	"context.WithTimeout":  ctxDerive("context.WithTimeout", true),
